@@ -33,7 +33,15 @@ func (randReader) Read(b []byte) (int, error) {
 	if s == nil || s.cur == nil {
 		return rand.Read(b)
 	}
-	// One-byte reads (crypto/internal/randutil.MaybeReadByte) do not advance the stream.
+	// One-byte reads (crypto/internal/randutil.MaybeReadByte, which happens or not by a coin of the runtime) do not
+	// advance the stream the oracles look at. They are served from a stream of their own, which does advance: code
+	// that draws single bytes until it gets one it likes (the padding of PKCS#1 v1.5) must not meet the same byte
+	// for ever.
+	if len(b) == 1 {
+		s.randPos1++
+		b[0] = randByte(s.cfg.Seed^0x5bd1e995, s.randPos1)
+		return 1, nil
+	}
 	pos := s.randPos
 	out := make([]byte, len(b))
 	for i := range b {
